@@ -390,6 +390,7 @@ func TestC20(t *testing.T) {
 			c20Body(t, [][]int{{0, 1}, {0, 2}}, true, sb))
 		if i, _ := mc.Shard(); i == 0 {
 			c20RacePart(r)
+			c20ServerStopPart(r)
 		}
 		r.Assume("a cooperative scheduler cannot see data races: the race clause is decided by the separate free-running `go test -race` pass (part race-pass, sampling, reported as such)")
 		r.Assume("goroutine interleavings between two scheduling points are not enumerated; SQLite busy-waits sleep on the virtual clock")
@@ -398,6 +399,44 @@ func TestC20(t *testing.T) {
 
 // c20RacePart folds in the free-running `go test -race` pass that run.sh
 // executed before this binary (TestC20Race in a -race build without gates).
+// c20ServerStopPart folds in the result of the in-package test of server.Server (real nats.go, embedded
+// nats-server, real time; run by run.sh before this binary; see overlay/srvstop_test.go.txt).
+func c20ServerStopPart(r *mc.Report) {
+	path := os.Getenv("VERIF_C20_SRVSTOP")
+	if path == "" {
+		fmt.Fprintln(os.Stderr, "HARNESS-ERROR: C20 must be started through run.sh (server-stop result missing)")
+		os.Exit(3)
+	}
+	b, err := os.ReadFile(path)
+	var res struct {
+		Cases        int      `json:"cases"`
+		Inconclusive []string `json:"inconclusive"`
+		Results      []struct {
+			Scenario  map[string]any `json:"scenario"`
+			Key       string         `json:"key"`
+			Violation string         `json:"violation"`
+			Harness   string         `json:"harness"`
+			Obs       string         `json:"obs"`
+		} `json:"results"`
+	}
+	if err != nil || json.Unmarshal(b, &res) != nil || res.Cases == 0 {
+		fmt.Fprintln(os.Stderr, "HARNESS-ERROR: server-stop result unusable:", err)
+		os.Exit(3)
+	}
+	p := r.Part("server-shutdown", "the whole instance as cmd/siot assembles it (server.Server: embedded nats-server, store, HTTP API, node manager, optionally client.DefaultClients, two instrumented clients) on real nats.go in real time, one child process per scenario; complete enumeration of {shutdown triggered by Server.Stop | by a client returning an error} x {0, 1, 3 acknowledged writes before} x {no write | one write in flight when the shutdown starts} x {with | without the default clients} (thorough: also after 11 s, store metrics running): Run returns (60 s bound), a client that is asked to stop can still make an acknowledged write and a read 300 ms later (the store outlives the clients), the in-flight request returns, the same file is served again with the same root and every acknowledged write")
+	p.Cases(int64(res.Cases), int64(res.Cases))
+	for _, x := range res.Results {
+		if x.Violation != "" {
+			sc, _ := json.Marshal(x.Scenario)
+			p.Violation("server-shutdown/"+x.Key, fmt.Sprintf("scenario %s: %s", sc, x.Violation), x.Scenario)
+		}
+	}
+	if len(res.Inconclusive) > 0 {
+		p.Cap(fmt.Sprintf("%d scenario(s) could not be set up: %s", len(res.Inconclusive), strings.Join(res.Inconclusive, " | ")))
+	}
+	p.Done()
+}
+
 func c20RacePart(r *mc.Report) {
 	dir := os.Getenv("VERIF_RACE_DIR")
 	if dir == "" {
